@@ -88,8 +88,37 @@ pub struct Plan {
     /// the values include arbitrary finite bit patterns (channel A only)
     #[serde(default)]
     pub raw: bool,
+    /// the hue slot carries an arbitrary raw angle (negative, tiny negative, beyond one turn): the round trip
+    /// is then judged with the type's own `PartialEq` on the hue (bitwise on the other components)
+    #[serde(default)]
+    pub raw_hue: bool,
     pub kind: Kind,
 }
+
+thread_local! {
+    /// set per executed plan: judge the hue slot with `PartialEq` only (see `Plan::raw_hue`)
+    static RAW_HUE: std::cell::Cell<bool> = const { std::cell::Cell::new(false) };
+}
+
+/// Raw hue angles whose decimal form is exact (dyadic rationals), so that no format's float parser can be
+/// blamed: tiny negatives (where wrapping into [0, 360) rounds to 360 exactly), negatives, whole turns, more
+/// than one turn, just below a turn.
+const RAW_HUES: [f64; 14] = [
+    -9.5367431640625e-7, // -2^-20
+    -5.9604644775390625e-8, // -2^-24
+    -0.5,
+    -90.0,
+    -360.0,
+    -450.25,
+    360.0,
+    540.0,
+    720.25,
+    1048576.0,
+    359.999969482421875, // 360 - 2^-15
+    180.5,
+    270.0,
+    -180.0,
+];
 
 pub struct C20 {
     cases: Vec<&'static CaseDesc>,
@@ -108,11 +137,11 @@ fn sweep_presentations() -> Vec<Presentation> {
     let mut v = Vec::new();
     for kf in KEY_FORMS {
         for (order, alpha_pos) in [(0u8, 255u8), (1, 0), (2, 1)] {
-            v.push(Presentation { struct_as: StructAs::Map, key_form: kf, alpha_pos, order, size_hint: alpha_pos != 0, alpha_present: true, unknown_key_at: None, strict_option: order == 2 });
+            v.push(Presentation { struct_as: StructAs::Map, key_form: kf, alpha_pos, order, size_hint: alpha_pos != 0, alpha_present: true, unknown_key_at: None, strict_option: order == 2, limit_to_declared_fields: false });
         }
     }
     for hint in [true, false] {
-        v.push(Presentation { struct_as: StructAs::Seq, key_form: KeyForm::BorrowedStr, alpha_pos: 255, order: 0, size_hint: hint, alpha_present: true, unknown_key_at: None, strict_option: hint });
+        v.push(Presentation { struct_as: StructAs::Seq, key_form: KeyForm::BorrowedStr, alpha_pos: 255, order: 0, size_hint: hint, alpha_present: true, unknown_key_at: None, strict_option: hint, limit_to_declared_fields: false });
     }
     v
 }
@@ -284,6 +313,7 @@ fn gen_presentation(rng: &mut Rng, c: &CaseDesc) -> Presentation {
         alpha_present: !has_alpha || rng.chance(5, 6),
         unknown_key_at: if rng.chance(1, 6) { Some(rng.below(5) as u8) } else { None },
         strict_option: rng.chance(1, 2),
+        limit_to_declared_fields: false,
     }
 }
 
@@ -319,7 +349,7 @@ impl World for C20 {
                 SweepItem::De { pres, k } => Kind::Sim { pres: pres.clone(), ser_fail: None, de_fail: Some(*k) },
                 SweepItem::Optional { pres, k } => Kind::SimOptional { pres: pres.clone(), de_fail: Some(*k) },
             };
-            return Plan { case: c.name.to_string(), vals_text: vals_text(&vals), vals: vals.iter().map(|v| v.to_bits()).collect(), raw: false, kind };
+            return Plan { case: c.name.to_string(), vals_text: vals_text(&vals), vals: vals.iter().map(|v| v.to_bits()).collect(), raw: false, raw_hue: false, kind };
         }
         let c = self.cases[(index % self.cases.len() as u64) as usize];
         let faults = rng.chance(4, 10);
@@ -395,8 +425,15 @@ impl World for C20 {
             }
             _ => (Kind::Value, false),
         };
-        let vals = gen_vals(rng, c, raw);
-        Plan { case: c.name.to_string(), vals_text: vals_text(&vals), vals: vals.iter().map(|v| v.to_bits()).collect(), raw, kind }
+        let mut vals = gen_vals(rng, c, raw);
+        let mut raw_hue = false;
+        if let Some(h) = c.hue_slot {
+            if rng.chance(1, 6) && h < vals.len() {
+                raw_hue = true;
+                vals[h] = *rng.pick(&RAW_HUES);
+            }
+        }
+        Plan { case: c.name.to_string(), vals_text: vals_text(&vals), vals: vals.iter().map(|v| v.to_bits()).collect(), raw, raw_hue, kind }
     }
 
     fn execute(&self, plan: &Plan, ctx: &mut Ctx<'_>) {
@@ -413,6 +450,10 @@ impl World for C20 {
         if plan.raw {
             ctx.probe("raw-bit-patterns");
         }
+        if plan.raw_hue {
+            ctx.probe("raw-hue-angles");
+        }
+        RAW_HUE.with(|r| r.set(plan.raw_hue));
         let r = catch(|| execute(c, inner, &vals, &plan.kind, ctx));
         match r {
             Caught::Ok(()) => {}
@@ -437,7 +478,7 @@ impl World for C20 {
         let simple: Vec<f64> = (0..plan.vals.len()).map(|j| if c.scalar.starts_with('u') { (j + 1) as f64 } else { 0.25 * (j + 1) as f64 }).collect();
         let simple_bits: Vec<u64> = simple.iter().map(|v| v.to_bits()).collect();
         if plan.vals != simple_bits {
-            out.push(Plan { vals: simple_bits, vals_text: vals_text(&simple), raw: false, ..plan.clone() });
+            out.push(Plan { vals: simple_bits, vals_text: vals_text(&simple), raw: false, raw_hue: false, ..plan.clone() });
         }
         let with = |k: Kind| Plan { kind: k, ..plan.clone() };
         match &plan.kind {
@@ -508,6 +549,50 @@ impl World for C20 {
         out
     }
 
+    /// Two things the check looks at without judging them (DESIGN §4.4 and §8.2): both are the
+    /// "we can't add to the expected fields so we just hope it works anyway" mechanism.
+    fn extra_evidence(&self, _stats: &simcore::core::Stats) -> serde_json::Value {
+        use palette::Srgba;
+        #[derive(Serialize, Deserialize)]
+        struct Flat {
+            name: String,
+            #[serde(flatten)]
+            color: Srgba<f32>,
+        }
+        let flat = Flat { name: "x".into(), color: Srgba::new(0.25, 0.5, 0.75, 0.5) };
+        let flatten = match serde_json::to_string(&flat) {
+            Ok(text) => match serde_json::from_str::<Flat>(&text) {
+                Ok(back) => format!("{text} -> round trip ok ({})", back.color == flat.color),
+                Err(e) => format!("{text} -> Err({e})"),
+            },
+            Err(e) => format!("serialization failed: {e}"),
+        };
+        let limited = match self.case("Alpha<Rgb<f32>>") {
+            Some(c) => {
+                let vals = [0.25, 0.5, 0.75, 0.5];
+                let peer = Peer::new(None);
+                match (c.ops.record)(&vals, &peer) {
+                    Ok(tok) => {
+                        let pres = Presentation { struct_as: StructAs::Seq, limit_to_declared_fields: true, ..Presentation::plain() };
+                        match (c.ops.replay)(&tok, &pres, &Peer::new(None), &vals) {
+                            Ok(o) => format!("round trip ok (equal: {})", o.eq),
+                            Err(e) => format!("Err({})", e.0),
+                        }
+                    }
+                    Err(e) => format!("serialization failed: {e}"),
+                }
+            }
+            None => "case not found".into(),
+        };
+        serde_json::json!({
+            "observed_not_judged": {
+                "serde_flatten_of_Srgba_in_a_user_struct_through_serde_json": flatten,
+                "struct_presented_as_a_sequence_of_exactly_fields_len_elements_(bincode_style)": limited,
+                "note": "both go through deserialize_struct with the color's own static field list, to which AlphaDeserializer cannot add `alpha`; not a presentation the property's quantifier names, recorded so the limitation is visible",
+            }
+        })
+    }
+
     fn info(&self) -> WorldInfo {
         WorldInfo {
             rule: "plan = (case = serializable type: 20 color types x f32|f64 (+u8|u16 for Rgb, Luma) x plain|Alpha|PreAlpha, 5 hue types, 4 user-defined \
@@ -518,7 +603,7 @@ impl World for C20 {
             state_measure: "states = distinct (case, conversation kind, presentation / document form, fault kind, fault position bucket, outcome class); transitions = distinct consecutive pairs within a worker (informational)",
             assumptions: vec![
                 "serde, serde_derive, serde_json (float_roundtrip) and ron 0.8 are trusted",
-                "text channels carry values whose shortest decimal form is exact (dyadic rationals, integers); the simulated peer carries arbitrary finite bit patterns; hues stay in [0, 180] degrees so that PartialEq and bit equality coincide",
+                "text channels carry values whose shortest decimal form is exact (dyadic rationals, integers); the simulated peer carries arbitrary finite bit patterns; hues stay in [0, 180] degrees so that PartialEq and bit equality coincide, except in the raw-hue share of plans (a fixed list of dyadic angles: tiny negatives, negatives, whole turns, beyond a turn), where the hue is judged with the type's own PartialEq only",
                 "a length-limited sequence presentation (bincode style) is deliberately not exercised: the source says 'we just hope it works anyway' and the property names self-describing formats and the compact sequence form",
                 "after an injected peer or I/O error: Err is always acceptable, Ok only with complete and correct data; nothing is claimed about bytes written before a failed write",
             ],
@@ -544,6 +629,7 @@ impl World for C20 {
                 "raw-bit-patterns",
                 "optional-alpha-defaulted-ron",
                 "optional-alpha-present-ron",
+                "raw-hue-angles",
             ],
             expected_faults: vec!["peer:error@call-k(ser)", "peer:error@call-k(de)", "io:short-read", "io:short-write", "io:EINTR", "io:error@byte-k", "io:EOF@byte-k", "io:write-zero"],
             time_note: "palette has no clock; simulated time is reported as steps_executed (= data-model calls and I/O calls)",
@@ -568,7 +654,15 @@ fn max_alpha(c: &CaseDesc) -> f64 {
 fn judge_value(ctx: &mut Ctx<'_>, c: &CaseDesc, what: &str, key: &str, got: &Outcome, expect: &[f64]) -> bool {
     ctx.checked();
     let want = expected_bits(c, expect);
-    if !got.eq || got.comps != want {
+    // raw hue angles: the property's notion of "equal" is the type's `PartialEq` (which compares angles), so the
+    // hue slot is left to `eq` and only the other components are compared bit for bit
+    let raw_hue = RAW_HUE.with(|r| r.get());
+    let same_bits = if raw_hue && got.comps.len() == want.len() {
+        got.comps.iter().zip(want.iter()).enumerate().all(|(j, (a, b))| a == b || c.hue_slot == Some(j))
+    } else {
+        got.comps == want
+    };
+    if !got.eq || !same_bits {
         let show = |b: &[u64]| b.iter().map(|x| format!("{:?}", f64::from_bits(*x))).collect::<Vec<_>>().join(", ");
         return ctx.fail(
             &format!("round-trip:{what}"),
@@ -878,8 +972,15 @@ fn execute(c: &'static CaseDesc, inner: Option<&'static CaseDesc>, vals: &[f64],
             match got {
                 Ok(o) => {
                     if has_alpha && !pres.alpha_present {
-                        ctx.checked();
-                        ctx.fail("missing-alpha-accepted", &key, format!("{}: the document has no alpha but deserialization succeeded with {:?}", c.name, o.comps));
+                        // The plain impls reject such a document today. The property only says what a
+                        // missing alpha may turn into (full opacity), so accepting it is wrong only if
+                        // the color or the alpha that comes out is something else.
+                        let mut expect = vals.to_vec();
+                        expect[c.nvals - 1] = max_alpha(c);
+                        if judge_value(ctx, c, "document without alpha accepted", &key, &o, &expect) {
+                            return;
+                        }
+                        ctx.probe("missing-alpha-accepted-as-opaque");
                         return;
                     }
                     if judge_value(ctx, c, "SimFormat round trip", &key, &o, vals) {
@@ -895,11 +996,15 @@ fn execute(c: &'static CaseDesc, inner: Option<&'static CaseDesc>, vals: &[f64],
                         return; // always acceptable
                     }
                     if has_alpha && !pres.alpha_present {
+                        // how the rejection is worded is not part of the property
                         if e.0.contains("alpha") {
                             ctx.probe("missing-alpha-reported");
-                        } else if c.shape != Shape::Unit {
-                            ctx.fail("missing-alpha-report", &key, format!("{}: a document without alpha was rejected with {:?}, expected a missing `alpha` field", c.name, e.0));
                         }
+                        return;
+                    }
+                    if pres.unknown_key_at.is_some() && pres.struct_as == StructAs::Map && c.shape == Shape::Struct && !index_keys {
+                        // the document carries a key palette never writes; ignoring it (today) and rejecting it are both fine
+                        ctx.probe("unknown-key-rejected");
                         return;
                     }
                     ctx.fail("deserialize-failed", &key, format!("{}: a healthy peer presenting {:?} was rejected: {}", c.name, pres, e.0));
@@ -943,7 +1048,9 @@ fn execute(c: &'static CaseDesc, inner: Option<&'static CaseDesc>, vals: &[f64],
                 }
                 Err(e) => {
                     ctx.checked();
-                    if !peer.fired.get() && c.shape != Shape::Unit {
+                    let index_keys = matches!(pres.key_form, KeyForm::U64Index | KeyForm::U8Index | KeyForm::U32Index);
+                    let unknown_key = pres.unknown_key_at.is_some() && pres.struct_as == StructAs::Map && c.shape == Shape::Struct && !index_keys;
+                    if !peer.fired.get() && c.shape != Shape::Unit && !unknown_key {
                         ctx.fail("optional-alpha-failed", &key, format!("{}: optional-alpha deserialization from a healthy peer ({:?}) failed: {}", c.name, pres, e.0));
                     }
                 }
@@ -1110,20 +1217,31 @@ fn execute(c: &'static CaseDesc, inner: Option<&'static CaseDesc>, vals: &[f64],
                     }
                 }
                 (Err(e), false) => {
-                    ctx.fail("deserialize-failed", &key, format!("{}: serde_json rejected {document:?}: {e}", c.name));
-                    return;
+                    if matches!(doc, Doc::Object { unknown_key_at: Some(_), .. }) && json_doc(c, vals, doc).is_some() {
+                        // a key palette never writes: ignoring it (today) and rejecting it are both fine
+                        ctx.probe("unknown-key-rejected");
+                    } else {
+                        ctx.fail("deserialize-failed", &key, format!("{}: serde_json rejected {document:?}: {e}", c.name));
+                        return;
+                    }
                 }
                 (Ok(o), true) => {
-                    ctx.fail("bad-document-accepted", &key, format!("{}: {document:?} ({doc:?}) was accepted as {:?}", c.name, o.comps));
-                    return;
+                    // Documents palette never writes (no alpha / alpha twice, both times the same value) are
+                    // rejected today. Nothing in the property demands the rejection; accepting one is wrong
+                    // only if what comes out is not the color (with full opacity where alpha was missing).
+                    let mut expect = vals.to_vec();
+                    if matches!(doc, Doc::MissingAlpha { .. }) {
+                        expect[c.nvals - 1] = max_alpha(c);
+                    }
+                    if judge_value(ctx, c, "hand-written document accepted", &key, o, &expect) {
+                        return;
+                    }
+                    ctx.probe("odd-document-accepted-with-right-value");
                 }
                 (Err(e), true) => {
                     if matches!(doc, Doc::MissingAlpha { .. }) {
                         if e.contains("alpha") {
                             ctx.probe("missing-alpha-reported");
-                        } else {
-                            ctx.fail("missing-alpha-report", &key, format!("{}: {document:?} was rejected with {e:?}, expected a missing `alpha` field", c.name));
-                            return;
                         }
                     } else if e.contains("duplicate") {
                         ctx.probe("duplicate-alpha-rejected");
